@@ -92,7 +92,12 @@ POLICIES = {
     'stickylo': ('sticky', 'lo', 'identity'),
     'ident': ('uniform', 'uniform', 'identity'),
     'rev': ('uniform', 'uniform', 'reverse'),
+    # the scheduler as an adversary with patience: the first 24 000 index draws alternate between the two lowest values
+    # (in a rewiring loop: the same two connection records, usually sharing a node, over and over), then the stream is
+    # uniform.  A rejection loop that is unbounded just takes some 12 000 rounds longer; one with a draw budget runs out.
+    'stall': ('stall', 'uniform', 'uniform'),
 }
+STALL_DRAWS = 24000
 
 
 class HostileRandomState(np.random.RandomState, _LogMixin):
@@ -125,7 +130,12 @@ class HostileRandomState(np.random.RandomState, _LogMixin):
         span = high - low
         if span <= 1:
             return low
-        if self.idx == 'uniform' or self._u() < self.mix:
+        if self.idx == 'stall':
+            self._stalled = getattr(self, '_stalled', 0) + 1
+            if self._stalled <= STALL_DRAWS:
+                return low + (self._stalled % 2)
+            v = int(self._ri(low, high))
+        elif self.idx == 'uniform' or self._u() < self.mix:
             v = int(self._ri(low, high))
         elif self.idx == 'low':
             v = low + int(self._ri(0, min(span, 3)))
